@@ -239,7 +239,13 @@ func init() {
 				return "closed"
 			}
 		} else {
-			if _, err := s.C.Extended(fakepg.Ext{Parse: true, Name: "s", SQL: sql}); err != nil {
+			var oids []uint32
+			if a[0] == "o" { // explicit parameter type OIDs (text) for every placeholder
+				for i := 1; strings.Contains(sql, fmt.Sprintf("$%d", i)); i++ {
+					oids = append(oids, 25)
+				}
+			}
+			if _, err := s.C.Extended(fakepg.Ext{Parse: true, Name: "s", SQL: sql, ParamOIDs: oids}); err != nil {
 				return "closed"
 			}
 			if len(w.DB.Parses) == 0 {
